@@ -21,6 +21,14 @@ CLAIMED.update({
   "C16": "TCP relay connection table: ids unique, bind succeeds iff right id and owner and only once, 30 s deadline armed and effective, duplicate Connect is ErrDupeTCPConnection and leaves the manager lock free.",
   "C18": "Sequential lock discipline on every path of the executed functions (lock balance at end of every path, self-deadlock, unlock of unheld mutex) and the publication invariant at every callback; interleavings are outside the technique.",
 })
+CLAIMED.update({
+  "C01": "Send-indication and ChannelData gates on the real handlers: exactly one datagram, from the sender's own relay socket, to the named/bound peer, iff permission-for-IP / binding-by-number in the sender's own allocation; refused or wrong-family peers are never installed by CreatePermission/ChannelBind; expired entries never authorise.",
+  "C02": "Relay-to-client path (real packetConnHandler run on a scripted fake socket): forwarded iff binding for the exact source or permission for the source IP, only to the owning client, truthfully attributed, nothing otherwise.",
+  "C03": "authenticateRequest: authenticated implies MESSAGE-INTEGRITY present, nonce accepted, handler accepted, integrity matched against exactly the handler's key for the presented username/realm; refusals answered once with 401/438/400 and a fresh nonce; Refresh/CreatePermission/ChannelBind/Allocate take effect only with credentials of the owner. HMAC is unconstrained (no cryptographic reasoning).",
+  "C04": "Isolation by 5-tuple: handlers act only on the allocation of the request's own 5-tuple (second allocation untouched in every handler harness), relay traffic goes only to the owner, duplicate CreateAllocation rejected with no side effect.",
+  "C05": "Payload integrity both directions and both encapsulations: byte-identical payload (symbolic probe index), truthful XOR-PEER-ADDRESS / channel number, padding and length fields, whole-or-dropped for all datagram sizes 0..65507.",
+  "C19": "Response correlation on every handler harness (transaction id, method, destination, at most one response), Binding reports exactly the source address, Allocate success reports true mapped/relayed address and the lifetime armed, retransmit gets the cached success, other Allocate gets 437 with no change.",
+})
 NA = {}
 ALL = ["C%02d" % i for i in range(1, 21)]
 for p in ALL:
